@@ -393,6 +393,15 @@ pub fn shape(name: &str) -> Logical {
             let _ = n;
             l
         }
+        // "multi" with one source that cannot be read: the first content (hint Yes, first cluster)
+        // or the last compressed content (last cluster of the pack)
+        "multi-badfirst" | "multi-badlast" => {
+            let mut l = shape("multi");
+            l.name = name.into();
+            let k = if name == "multi-badfirst" { 0 } else { 3 };
+            l.contents[k].tag = UNREADABLE_TAG;
+            l
+        }
         // a compressed cluster stored on more than 8 KiB (written in one call past the writer's
         // buffer) and one extra content pack in its own file
         "mid" => {
@@ -461,8 +470,23 @@ pub struct CreatedLogical {
     pub files: Vec<PathBuf>,
 }
 
+/// Items carrying this tag are handed to the creator as an unreadable source.
+pub const UNREADABLE_TAG: u64 = 0xBAD_50;
+
 fn add_items<A: jbk::creator::ContentAdder + ?Sized>(adder: &mut A, items: &[Item]) -> Result<(), String> {
     for it in items {
+        if it.tag == UNREADABLE_TAG {
+            // a source whose size is known but whose bytes cannot be read: a file opened for
+            // writing only (every read answers EBADF)
+            let p = std::path::Path::new(&crate::scratch_base()).join(format!("jbkmc-unreadable-{}-{}.bin", std::process::id(), it.len));
+            std::fs::write(&p, it.bytes()).map_err(|e| e.to_string())?;
+            let f = std::fs::OpenOptions::new().write(true).open(&p).map_err(|e| e.to_string())?;
+            let src = jbk::creator::InputFile::new(f).map_err(|e| format!("unreadable source: {e}"))?;
+            let r = adder.add_content(Box::new(src), it.hint.to_jbk()).map_err(|e| format!("add_content: {e}"));
+            let _ = std::fs::remove_file(&p);
+            r?;
+            continue;
+        }
         adder
             .add_content(Box::new(std::io::Cursor::new(it.bytes())), it.hint.to_jbk())
             .map_err(|e| format!("add_content: {e}"))?;
